@@ -122,6 +122,60 @@ impl TorrentMaps {
     }
 }
 
+#[cfg(feature = "verif")]
+impl TorrentMaps {
+    /// Projection of the stored state, torrents and peers in storage order
+    pub fn verif_dump(&self) -> Vec<aquatic_common::verif::TorrentDump> {
+        let mut out = self.ipv4.verif_dump(true, |ip| IpAddr::V4(ip));
+
+        out.extend(self.ipv6.verif_dump(false, |ip| IpAddr::V6(ip)));
+
+        out
+    }
+}
+
+#[cfg(feature = "verif")]
+impl<I: Ip> TorrentMap<I> {
+    fn verif_dump(
+        &self,
+        ipv4: bool,
+        to_ip: impl Fn(I) -> IpAddr,
+    ) -> Vec<aquatic_common::verif::TorrentDump> {
+        use aquatic_common::verif::{PeerDump, TorrentDump};
+
+        let peer_dump = |key: &ResponsePeer<I>, peer: &Peer| PeerDump {
+            addr: Some((to_ip(key.ip_address), key.port)),
+            peer_id: None,
+            seeder: peer.is_seeder,
+            valid_until: peer.valid_until.verif_raw(),
+            owner: None,
+            expecting_answers: Vec::new(),
+        };
+
+        self.torrents
+            .iter()
+            .map(|(info_hash, torrent_data)| match torrent_data {
+                TorrentData::Small(t) => TorrentDump {
+                    ipv4,
+                    info_hash: info_hash.0,
+                    large: false,
+                    num_seeders: None,
+                    strong_count: None,
+                    peers: t.0.iter().map(|(k, p)| peer_dump(k, p)).collect(),
+                },
+                TorrentData::Large(t) => TorrentDump {
+                    ipv4,
+                    info_hash: info_hash.0,
+                    large: true,
+                    num_seeders: Some(t.num_seeders),
+                    strong_count: None,
+                    peers: t.peers.iter().map(|(k, p)| peer_dump(k, p)).collect(),
+                },
+            })
+            .collect()
+    }
+}
+
 pub struct TorrentMap<I: Ip> {
     torrents: IndexMap<InfoHash, TorrentData<I>>,
     #[cfg(feature = "metrics")]
